@@ -41,9 +41,34 @@ def _wrun(item):
     t0 = time.time()
     try:
         res = _W['mod'].run_shard(shard, _W['tier'], _W['seed'])
-    except BaseException:  # harness error: report, never a violation
+    except BaseException as exc:
+        lib = _raised_in_library(exc)
+        if lib is not None:
+            # the library under test raised where the driver (which passes on the unchanged tree) expects it to
+            # succeed: that is a violation of the property being exercised, not a harness problem
+            res = Result()
+            res.violation(_W['mod'].ID, 'library_exception_uncaught', {'op': '__shard__', 'shard': shard},
+                          f'{type(exc).__name__}: {str(exc)[:300]} raised inside {lib} while running shard {json.dumps(shard, default=repr)[:200]}',
+                          'no exception', type(exc).__name__)
+            return idx, res, None, time.time() - t0
+        # harness error: report, never a violation
         return idx, None, traceback.format_exc(), time.time() - t0
     return idx, res, None, time.time() - t0
+
+
+def _raised_in_library(exc):
+    """'file:line' of the innermost frame if the exception was raised by code of the repository under test."""
+    tb = exc.__traceback__
+    last = None
+    while tb is not None:
+        last = tb
+        tb = tb.tb_next
+    if last is None:
+        return None
+    fn = os.path.realpath(last.tb_frame.f_code.co_filename)
+    if fn.startswith(env.REPO + os.sep):
+        return f'{os.path.relpath(fn, env.REPO)}:{last.tb_lineno}'
+    return None
 
 
 def run_parallel(pid, tier, seed, shards, jobs):
@@ -73,7 +98,13 @@ def do_replay(pid, path):
     mod = load_prop(pid)
     with open(path) as fh:
         v = json.load(fh)
-    res = mod.replay(v['case'])
+    if v['case'].get('op') == '__shard__':
+        _W.update(mod=mod, tier=os.environ.get('VERIF_TIER') or 'quick', seed=int(os.environ.get('VERIF_SEED', '0') or 0))
+        _, res, err, _ = _wrun((0, v['case']['shard']))
+        if res is None:
+            res = Result()
+    else:
+        res = mod.replay(v['case'])
     hits = [x for x in res.violations if x['kind'] == v['kind']]
     out = {'reproduced': bool(hits), 'n': res.n_violations,
            'observed': [jhash([x['kind'], x['observed']]) for x in hits][:5],
@@ -84,14 +115,14 @@ def do_replay(pid, path):
     return 1 if res.n_violations else 0
 
 
-def confirm(pid, path):
+def confirm(pid, path, tier='quick'):
     """Replay a violation twice in fresh interpreters; both must reproduce
     and observe the same thing."""
     outs = []
     for _ in range(2):
         p = subprocess.run([sys.executable, '-m', 'mc.runner', pid, '--replay', path],
                            capture_output=True, text=True, cwd=env.VERIF,
-                           env={**os.environ, 'PYTHONHASHSEED': '0'}, timeout=1800)
+                           env={**os.environ, 'PYTHONHASHSEED': '0', 'VERIF_TIER': tier}, timeout=1800)
         line = [ln for ln in p.stdout.splitlines() if ln.startswith('REPLAY ')]
         outs.append(line[0] if line else f'NO-REPLAY-LINE rc={p.returncode} {p.stderr[-400:]}')
     ok = outs[0] == outs[1] and '"reproduced": true' in outs[0]
@@ -162,7 +193,7 @@ def main(argv=None):
         with open(path, 'w') as fh:
             json.dump(v, fh, indent=1, sort_keys=True, default=repr)
         if printed < 3 and not args.no_confirm:
-            ok, outs = confirm(pid, path)
+            ok, outs = confirm(pid, path, args.tier)
             if not ok:
                 nondet = True
                 print(f'NONDETERMINISM property={pid} replay={path} {outs}', file=sys.stderr)
